@@ -60,6 +60,11 @@ Items ==
     [b |-> EncIpfixMsg(HX, <<EncSet(300, Body8), EncIpfixTmplSet(<<T(257, FA)>>, <<>>)>>),
                                                                               toks |-> <<V(10), Data("ipfix", 300), Def("ipfix", "data", T(257, FA))>>],
     [b |-> SubSeq(EncIpfixMsg(HX, <<EncIpfixTmplSet(<<T(257, FA)>>, <<>>)>>), 1, 30), toks |-> <<V(10), Stop(10)>>],   \* message cut
+    \* template records the implementation rejects (no field has a length): nothing may change
+    [b |-> EncIpfixMsg(HX, <<EncIpfixTmplSet(<<T(256, <<>>)>>, <<>>)>>),        toks |-> <<V(10), Nop(10)>>],
+    [b |-> EncIpfixMsg(HX, <<EncIpfixTmplSet(<<T(256, <<Spec9(94, 0)>>)>>, <<>>)>>), toks |-> <<V(10), Nop(10)>>],
+    [b |-> EncIpfixMsg(HX, <<EncIpfixOtmplSet(<<[id |-> 256, count |-> 1, scope_count |-> 1, fields |-> <<Spec9(5, 0)>>]>>, <<>>)>>),
+                                                                              toks |-> <<V(10), Nop(10)>>],
     [b |-> <<0, 5, 0, 0>> \o B4(1) \o B4(2) \o B4(3) \o B4(4) \o B4(5),        toks |-> <<V(5), Nop(5)>>],
     [b |-> <<0, 1, 0, 0, 1, 0, 0, 2>>,                                          toks |-> <<V(1), Stop(1)>>] >>
 NI == Len(Items)
